@@ -197,3 +197,67 @@ def r6(case, rec):
     except Exception as e:
         raise Violation('upward/ill-shaped projection raised %s, not ValueError: %s' % (type(e).__name__, e))
     raise Violation('projection from sizes %s up to %s was accepted' % ([s - 1 for s in case['fs']['shape']], ms))
+
+
+@st.composite
+def cache_case(draw):
+    P = draw(st.integers(1, 2))
+    sizes = [draw(st.integers(2, 14)) for _ in range(P)]
+    proj = [draw(st.integers(1, n)) for n in sizes]
+    nconf = draw(st.integers(1, 5))
+    confs = []
+    for _ in range(nconf):
+        confs.append(dict(hits=[draw(st.integers(0, n)) for n in sizes], count=draw(st.integers(1, 40)), polarized=draw(st.booleans())))
+    return dict(sizes=sizes, proj=proj, confs=confs, polarized=draw(st.booleans()), again=draw(st.booleans()))
+
+
+@REG.relation('R7-weights-survive-other-users', strategy=cache_case, quick=(1500, 8), thorough=(20000, 16))
+def r7(case, rec):
+    """The memoised projection weights are shared with the data-to-spectrum and low-pass code: building spectra from SNP counts
+    (any number of populations, counts > 1) must leave every later projection exact."""
+    from dadi.LowPass import LowPass
+    sizes, proj = case['sizes'], case['proj']
+    count_dict = {}
+    for c in case['confs']:
+        key = (tuple(sizes), tuple(c['hits']), bool(c['polarized']))
+        count_dict[key] = count_dict.get(key, 0) + c['count']
+    rec.case(case, len(sizes) == 1 and any(c['count'] > 1 for c in case['confs']), ['P=%d' % len(sizes)])
+
+    def expected():
+        out = np.zeros([m + 1 for m in proj])
+        for (called, hits, pol), cnt in count_dict.items():
+            if case['polarized'] and not pol:
+                continue
+            v = None
+            for n, m, h in zip(called, proj, hits):
+                w = np.array([float(x) for x in hypergeom.weights(n, m, h)])
+                v = w if v is None else np.multiply.outer(v, w)
+            out += cnt * v
+        return out
+    for rep in range(2 if case['again'] else 1):
+        with dadi_call('Spectrum._from_count_dict'):
+            fs = dadi.Spectrum._from_count_dict(dict(count_dict), list(proj), polarized=case['polarized'], mask_corners=False)
+        exp = expected()
+        if case['polarized']:
+            require_close(np.asarray(np.ma.getdata(fs), float), exp, 1e-10, 'spectrum from SNP counts (call %d) vs exact hypergeometric sum' % (rep + 1),
+                          rec, key='from counts', atol=1e-12)
+        else:
+            ed, em = folding.fold(exp, np.zeros(exp.shape, bool))
+            ok = ~em
+            ok.flat[0] = False
+            require_close(np.asarray(np.ma.getdata(fs), float)[ok], ed[ok], 1e-10, 'folded spectrum from SNP counts (call %d)' % (rep + 1), rec, key='from counts folded', atol=1e-12)
+    # every weight vector touched above must still be the exact pmf
+    for (called, hits, pol) in count_dict:
+        for n, m, h in zip(called, proj, hits):
+            got = np.array(Numerics._cached_projection(m, n, h), float)
+            e = np.array([float(x) for x in hypergeom.weights(n, m, h)])
+            require(np.abs(got - e).max() <= 1e-10, 'projection weights (to=%d, from=%d, hits=%d) are no longer the hypergeometric pmf after building a '
+                    'spectrum from SNP counts: %r vs %r' % (m, n, h, got.tolist(), e.tolist()))
+    n, m = sizes[0], proj[0]
+    with dadi_call('LowPass.projection_matrix'):
+        Pm = np.asarray(LowPass.projection_matrix(n - n % 2 if n > 2 else 2, max(2, m - m % 2) if m >= 2 else 2, 0), float) if n >= 2 else None
+    if Pm is not None:
+        nn, mm = Pm.shape[0] - 1, Pm.shape[1] - 1
+        if mm <= nn:
+            Pe = np.array([[float(hypergeom.weight(nn, mm, i, j)) for j in range(mm + 1)] for i in range(nn + 1)])
+            require_close(Pm, Pe, 0.0, 'LowPass.projection_matrix(F=0) after other users of the weight cache', rec, key='lowpass after', atol=1e-10)
